@@ -6,7 +6,7 @@
 From Verif Require Import Base.Prelude Base.StrUtil Base.Index Base.NdArr Base.PyRange
   Model.MapSpec Model.MapRun Model.SymBody.
 From Verif Require Import Model.MapDenote Proofs.MapRunFacts.
-From Verif Require Import Proofs.MapResumeFacts Proofs.MapValuesFacts Proofs.MapResumeDenote Proofs.CrashFSFacts.
+From Verif Require Import Proofs.MapResumeFacts Proofs.MapValuesFacts Proofs.MapResumeDenote Proofs.CrashFSFacts Proofs.CrashLink.
 From Verif Require Import Model.MapResume Model.CrashFS Model.CrashFSRef.
 
 (* ---------------------------------------------------------------- no_partial_returned *)
@@ -62,10 +62,8 @@ Print Assumptions C05_resume_eq_uninterrupted_bounded.
 
 (* General form, store level, any pipeline and any user functions: if the uninterrupted run ends with the store F,
    then a resumed run (cleanup=False, no request) started from ANY store rs all of whose cells/values are cells/values
-   of F ends – when it completes – with exactly the outputs of F.  By C05_crash_never_partial a crashed folder of the
-   repaired protocol holds only complete files; that these complete files hold values of F (the crashed run is a
-   prefix of the uninterrupted one) is NOT proved in general: it is decided for the reference pipelines
-   (C05_resume_eq_uninterrupted_bounded) and checked by crash injection on every run. *)
+   of F ends – when it completes – with exactly the outputs of F.  That a crashed folder of the repaired protocol reads back
+   as such a store is C05_every_crash_leaves_ok_folder / C05_ok_folder_reads_substore below. *)
 Theorem C05_resume_eq_uninterrupted_store : forall body (c : ctx) user rs psF psR,
   (forall g f o, In g (x_p c) -> In f (x_p c) -> In o (fouts g) -> In o (fouts f) -> g = f) ->
   all_shapes user (x_inputs c) (x_p c) = Ok (x_shapes c) ->
@@ -135,13 +133,8 @@ Print Assumptions C05_resume_completes_with_uninterrupted_result.
 
 (* (b) at the level of the run's trace: every value the uninterrupted run dumps is the denoted one (last conjunct above,
    with rs = empty_store), and ANY store built from the empty one by such dumps – any prefix or subset of the dumps of
-   the uninterrupted run, which is what a crash leaves – is a sub-store (fsub), so the theorem above applies to it:
-   the resume completes with the uninterrupted results.
-   `_partial`: what is NOT proved in general is the file-system plumbing between the two, i.e. that reading the
-   crashed folder back (Model/CrashFS.init_store on crash k of the compiled event list, including the RunInfo gate)
-   yields exactly such a replay; C05_crash_never_partial proves that no torn file is among the files read, the
-   reference pipelines decide the rest for every crash point, and crash injection checks it on every run. *)
-Theorem C05_crash_leaves_substore_partial : forall body p inputs D,
+   the uninterrupted run – is a sub-store (fsub). *)
+Theorem C05_replay_of_denoted_dumps_is_substore : forall body p inputs D,
   (forall g f o, In g p -> In f p -> In o (fouts g) -> In o (fouts f) -> g = f) ->
   (forall f, In f p -> NoDup (fouts f)) ->
   forall size_of : str -> nat,
@@ -151,12 +144,84 @@ Theorem C05_crash_leaves_substore_partial : forall body p inputs D,
   forall tr, Forall (dump_den body p inputs D) tr ->
   forall g, In g p -> fsub body p inputs D (fold_left (apply_dump size_of) tr empty_store) g.
 Proof. exact replay_sub. Qed.
-Print Assumptions C05_crash_leaves_substore_partial.
+Print Assumptions C05_replay_of_denoted_dumps_is_substore.
+
+(* THE FILE-SYSTEM LINK (Proofs/CrashLink.v).  folder_ok body p inputs D s0 is the invariant of the run folder:
+     - every file with a real (non-temporary) name is COMPLETE, and
+         outputs/<o>/__i__.pickle      holds a value v with dump_den (ADump o i v)   (the denoted element),
+         outputs/<o>.cloudpickle       holds the denoted value of o,
+         outputs/<o>/dict_array.cloudpickle holds a dict whose present cells hold denoted elements;
+     - whenever run_info.json exists, so do inputs/<n>.cloudpickle for every input and defaults/defaults.cloudpickle.
+   Hypotheses: C01's (body_arity, request_ok, defined denotation D), the decidable order conditions
+   pipeline_order_ok, and paths_ok: distinct files have distinct names (decidable; true for identifiers).
+   (1) ONE RUN of the repaired protocol (any storage, cleanup or not) on a folder that satisfies the invariant –
+       e.g. the empty one – completes with the denoted outputs, and EVERY crash point k of it leaves a folder that
+       satisfies the invariant again. *)
+Theorem C05_every_crash_leaves_ok_folder : forall body user p inputs D,
+  body_arity body ->
+  request_ok p inputs = true -> denote_run body p inputs user = Ok D -> pipeline_order_ok p = true ->
+  paths_ok {| x_p := p; x_inputs := inputs; x_shapes := d_shapes D |} (map fst inputs) = true ->
+  forall st cleanup s0,
+  folder_ok body p inputs D s0 ->
+  let r := run_fs body NewCode st p inputs user cleanup s0 in
+  (o_result r = Ok (flat_map (den_entries D) (concat (generations p)))
+   /\ forall f o, In f p -> In o (fouts f) ->
+        dict_get (flat_map (den_entries D) (concat (generations p))) o = dict_get (d_out D) o)
+  /\ forall k, folder_ok body p inputs D (crash (o_events r) k s0).
+Proof. exact run_on_ok_folder. Qed.
+Print Assumptions C05_every_crash_leaves_ok_folder.
+
+Theorem C05_empty_folder_ok : forall body user p inputs D,
+  request_ok p inputs = true -> denote_run body p inputs user = Ok D -> pipeline_order_ok p = true ->
+  paths_ok {| x_p := p; x_inputs := inputs; x_shapes := d_shapes D |} (map fst inputs) = true ->
+  folder_ok body p inputs D empty_fs.
+Proof. exact folder_ok_empty. Qed.
+Print Assumptions C05_empty_folder_ok.
+
+(* (2) READING such a folder back: the RunInfo gate (_compare_to_previous_run_info) lets it pass, and init_store
+       yields a sub-store of the denoted store (so C05_resume_completes_with_uninterrupted_result applies). *)
+Theorem C05_ok_folder_reads_substore : forall body user p inputs D,
+  request_ok p inputs = true -> denote_run body p inputs user = Ok D -> pipeline_order_ok p = true ->
+  paths_ok {| x_p := p; x_inputs := inputs; x_shapes := d_shapes D |} (map fst inputs) = true ->
+  forall st (x : em), folder_ok body p inputs D (fst x) ->
+  (exists x1, gate NewCode (map fst inputs) x = Ok x1)
+  /\ exists y rs, init_store NewCode st {| x_p := p; x_inputs := inputs; x_shapes := d_shapes D |} x = Ok (y, rs)
+                  /\ forall g, In g p -> fsub body p inputs D rs g.
+Proof. exact ok_folder_reads_substore. Qed.
+Print Assumptions C05_ok_folder_reads_substore.
+
+(* (3) RESUME = UNINTERRUPTED, GENERAL: every pipeline, every storage (file_array, dict, shared_memory_dict), every
+       list ks of crash points – the first run on a fresh folder is killed after k1 events, the resumed run after k2
+       events, ... (crashes, by induction over ks) – then a resumed run returns EXACTLY what the uninterrupted run
+       returns, which is the denoted array for every output. *)
+Theorem C05_resume_eq_uninterrupted : forall body user p inputs D,
+  body_arity body ->
+  request_ok p inputs = true -> denote_run body p inputs user = Ok D -> pipeline_order_ok p = true ->
+  paths_ok {| x_p := p; x_inputs := inputs; x_shapes := d_shapes D |} (map fst inputs) = true ->
+  forall st ks,
+  o_result (run_fs body NewCode st p inputs user false (crashes body st p inputs user empty_fs true ks))
+  = o_result (run_fs body NewCode st p inputs user true empty_fs)
+  /\ exists outs, o_result (run_fs body NewCode st p inputs user true empty_fs) = Ok outs
+       /\ forall f o, In f p -> In o (fouts f) -> dict_get outs o = dict_get (d_out D) o.
+Proof. exact resume_eq_uninterrupted. Qed.
+Print Assumptions C05_resume_eq_uninterrupted.
+
+(* the reference pipelines as an INSTANCE of the general theorem (hypotheses decided by vm_compute): every crash
+   point k1, every k2, without the bound of C05_resume_eq_uninterrupted_bounded, and for all three storages *)
+Theorem C05_resume_eq_uninterrupted_ref : forall r st k1, In r ref_family ->
+  resume_ok NewCode st r k1 None = true /\ forall k2, resume_ok NewCode st r k1 (Some k2) = true.
+Proof. exact ref_family_resume_unbounded. Qed.
+Print Assumptions C05_resume_eq_uninterrupted_ref.
 
 Example ex_resume_hyps : forall r, In r ref_family ->
-  request_ok (r_funcs r) (r_inputs r) = true /\ is_ok (denote_run sym_body (r_funcs r) (r_inputs r) (r_user r)) = true
-  /\ pipeline_order_ok (r_funcs r) = true.
-Proof. intros r [<-|[<-|[<-|[]]]]; (split; [vm_compute; reflexivity|]); split; vm_compute; reflexivity. Qed.
+  request_ok (r_funcs r) (r_inputs r) = true /\ pipeline_order_ok (r_funcs r) = true
+  /\ exists D, denote_run sym_body (r_funcs r) (r_inputs r) (r_user r) = Ok D
+       /\ paths_ok {| x_p := r_funcs r; x_inputs := r_inputs r; x_shapes := d_shapes D |} (map fst (r_inputs r)) = true.
+Proof.
+  intros r [<-|[<-|[<-|[]]]]; (split; [vm_compute; reflexivity|]); (split; [vm_compute; reflexivity|]);
+    (destruct (denote_run sym_body _ _ _) as [D|] eqn:E; [|vm_compute in E; discriminate]);
+    exists D; (split; [reflexivity|]); vm_compute in E; injection E as <-; vm_compute; reflexivity.
+Qed.
 
 (* ---------------------------------------------------------------- resume_refuted_inplace *)
 (* What the code did before the repair (in-place writes, run_info.json first, DictArray.load keyed on the folder):
